@@ -1,5 +1,9 @@
 import LP.Props.C08
+import LP.Props.C07Inv
 #print axioms LP.C08_cmp
 #print axioms LP.ZAlg.C07_select_sound
 #print axioms LP.Alg.cmp_sound
 #print axioms LP.Alg.floor_sound
+#print axioms LP.ZAlg.C07_opEq_sound
+#print axioms LP.ZAlg.C07_sub_exact
+#print axioms LP.ZAlg.C07_div_exact
